@@ -14,7 +14,9 @@ P = 77
 METHODS = ["name", "exe", "cmdline", "status", "username", "create_time", "cwd", "nice", "ionice", "cpu_affinity", "uids", "gids", "terminal",
            "num_fds", "io_counters", "cpu_num", "environ", "num_ctx_switches", "num_threads", "threads", "cpu_times", "cpu_percent",
            "memory_info", "memory_full_info", "memory_percent", "memory_maps", "open_files", "net_connections", "ppid",
-           "rlimit_get", "as_dict", "children", "children_r", "parent", "parents", "is_running"]
+           "rlimit_get", "as_dict", "children", "children_r", "parent", "parents", "is_running",
+           # the setting forms and the signals take the same paths through /proc (identity check, eligible CPUs ...) and the per-process syscalls
+           "cpu_affinity_all", "cpu_affinity_set", "nice_set", "ionice_set", "rlimit_set", "suspend", "send_signal_0"]
 TWO_FAULT_Q = ["name", "exe", "cmdline", "memory_full_info", "open_files", "threads", "as_dict", "children"]
 OK = (psutil.NoSuchProcess, psutil.ZombieProcess, psutil.AccessDenied)
 
@@ -38,6 +40,18 @@ def call(p, m):
         return p.rlimit(psutil.RLIMIT_NOFILE)
     if m == "children_r":
         return p.children(recursive=True)
+    if m == "cpu_affinity_all":
+        return p.cpu_affinity([])
+    if m == "cpu_affinity_set":
+        return p.cpu_affinity([0, 1])
+    if m == "nice_set":
+        return p.nice(5)
+    if m == "ionice_set":
+        return p.ionice(psutil.IOPRIO_CLASS_BE, 3)
+    if m == "rlimit_set":
+        return p.rlimit(psutil.RLIMIT_NOFILE, (100, 200))
+    if m == "send_signal_0":
+        return p.send_signal(0)
     return getattr(p, m)()
 
 
@@ -63,7 +77,7 @@ def classify(ctx, exc, kind, method, info, pids=(P,)):
         ctx.prove(kind == "zombie", "Zombie-only-if-zombie", detail=f"{method} | {info}")
 
 
-@harness("C03.single", quick=[dict(method=m, kind=kd) for m in METHODS for kd in ("vanish", "deny", "deny_eperm", "zombie")], timeout_ms=5000)
+@harness("C03.single", quick=[dict(method=m, kind=kd) for m in METHODS for kd in ("vanish", "deny", "deny_eperm", "zombie", "esrch")], timeout_ms=5000)
 def single(ctx, method, kind):
     k = build(ctx, zombie=(kind == "zombie"))
     with k.installed():
@@ -80,13 +94,18 @@ def single(ctx, method, kind):
         elif kind in ("deny", "deny_eperm"):
             k.fault.deny_at = idx
             k.fault.deny_errno = errno.EACCES if kind == "deny" else errno.EPERM
+        elif kind == "esrch":
+            # one access alone fails with ESRCH while every /proc entry of the process is still there: the task is being torn down
+            # (what read() of an already opened /proc/<pid>/stat answers in that window)
+            k.fault.deny_at = idx
+            k.fault.deny_errno = errno.ESRCH
         try:
             call(p, method)
             exc = None
         except Exception as e:  # noqa: BLE001
             exc = e
         info = f"fault={k.fault.fired[:2]} after {k.naccess} accesses"
-        classify(ctx, exc, kind, method, info)
+        classify(ctx, exc, "vanish[esrch-once]" if kind == "esrch" else kind, method, info)
         if kind == "vanish" and k.fault.fired:
             # once the process is gone every later query on that object raises NoSuchProcess
             for m2 in ("name", "cpu_times", "memory_info", "cmdline", "status", "ppid", "num_fds", "nice"):
@@ -216,7 +235,7 @@ def deny_twice(ctx, method):
 ATTRS = ["name", "cmdline", "cpu_times", "memory_info", "num_fds", "status", "exe", "username"]
 
 
-@harness("C03.process_iter", quick=[dict(kind=kd) for kd in ("vanish", "deny", "zombie")])
+@harness("C03.process_iter", quick=[dict(kind=kd) for kd in ("vanish", "deny", "zombie", "esrch")])
 def process_iter(ctx, kind):
     """process_iter(attrs) silently skips a process that vanishes and maps AccessDenied/Zombie to ad_value"""
     k = build(ctx, zombie=(kind == "zombie"))
@@ -228,6 +247,8 @@ def process_iter(ctx, kind):
             k.fault.vanish_at = idx
         elif kind == "deny":
             k.fault.deny_at = idx
+        elif kind == "esrch":
+            k.fault.deny_at, k.fault.deny_errno = idx, errno.ESRCH
         try:
             got = list(psutil.process_iter(attrs=ATTRS, ad_value="AD"))
             exc = None
@@ -238,7 +259,7 @@ def process_iter(ctx, kind):
             return
         pids = [x.pid for x in got]
         ctx.prove(pids == sorted(pids) and set(pids) <= {1, P, 90} and {1, 90} <= set(pids) and all(set(x.info) == set(ATTRS) for x in got), "process_iter-skips", detail=f"{pids}")
-        if kind != "vanish":
+        if kind not in ("vanish", "esrch"):
             ctx.prove(P in pids, "process_iter-skips", detail="a denied/zombie process is still listed")
         for x in got:
             if x.pid == P and kind == "deny" and k.fault.fired:
